@@ -367,10 +367,19 @@ def stale_report(ck, agg):
             return [(st, Seq([Sym(st.fresh_name("keep"), "bool"), Sym(("handled-type", k), "int", rng=(0, 255))], "tuple"))]
         for hn in ("_handle_frame_for_this_node", "_handle_frame_for_other_node"):
             nn.model.opaque[P.method(mix, hn).qualname] = handler
-        nn.model.loop_key = net.radio_loop_key(nn, trace_kinds=("unpack", "handled"))
+        nn.model.loop_key = net.radio_loop_key(nn, trace_kinds=("unpack", "handled", "radio-read"))
         st, node = nn.fresh()
         outs = nn.run(f, node, [], st, limits=Limits(max_paths=20000, loop_unroll=3, depth=14, concrete_loop=10))
         for out in outs:
+            # R15.4 (progress, by value): the reception loop is bounded because every round takes a payload out of the 3-level RX FIFO.  A
+            # read that returned nothing took nothing (RF24.read() leaves a zero-width payload where it is), so the loop must be left on
+            # that path - going round again can spin forever on the same FIFO content
+            empties = [e for e in out.trace if e.kind == "radio-read" and e.data[0] == "none"]
+            for e0 in empties:
+                again = [e for e in out.trace if e.kind == "loop-iter" and e.seq > e0.seq and e0.node is not None and any(x is e0.node for x in ast.walk(e.node))]
+                agg.add("R15.4", f, "after a read that returned nothing the reception loop is left (it would not make progress)", not again,
+                        "%s: read() returned None and the loop goes round again (next iteration at line %s): with a zero-length payload at the head of the RX FIFO "
+                        "available() stays True and update() never returns" % (clsname, getattr(again[0].node, "lineno", "?") if again else "?"), e0.node)
             if out.kind != "return":
                 continue
             n += 1
@@ -532,6 +541,10 @@ def run(ck):
     # (shared with C11/R11.6)
     from . import c11
     n5 = c11.fragment_loop(ck, agg, rule="R15.8")
+    # the level used to index the pipe-address tables when relaying is what _begin() derived from the current address - afresh on every call,
+    # 0..4 (R04.1; a level that accumulates over re-addressing indexes past the 6-byte suffix table inside update())
+    from . import c04
+    c04.begin_structure(ck, agg, net.NetNode(ck, "rf24_network", "RF24Network"))
     agg.flush()
     ck.floor("R15.8", "re-transmission scenarios by message length", n5, 30)
     ck.floor("R15.1", "update() analyses", n1, 12)
